@@ -207,3 +207,157 @@ class EagerCat(Contract):
             return [("colliding_name_concatenated_under_part_name_then_renamed", ok and result == inner(p=name))]
         ok = len(ctx.calls) == 1 and ctx.calls[0] == (name, "p", parts)
         return [("concatenated_under_the_new_name", ok)]
+
+
+# ==================================================================================================
+# C01 / C04: Stack.eager_subs and Stack.eager_reduce over opaque parts
+# ==================================================================================================
+class NumberT:
+    def __init__(self, data, size):
+        self.data, self.output = data, BintM(size)
+
+
+class SliceT:
+    def __init__(self, name, start, stop, step, dtype):
+        self.name, self.slice, self.output = name, slice(start, stop, step), BintM(dtype)
+
+
+class Part:
+    def __init__(self, k, inputs=("a",)):
+        self.k, self.inputs = k, OrderedDict((n, None) for n in inputs)
+        self.reduced = None
+
+    def reduce(self, op, rvars):
+        r = Part(self.k, [n for n in self.inputs if n not in rvars])
+        r.reduced = (op, frozenset(rvars), self)
+        return r
+
+    def __repr__(self):
+        return "part%d%s" % (self.k, "" if self.reduced is None else "|reduced")
+
+
+@register
+class StackEagerSubs(Contract):
+    """Stack.eager_subs(((name, index),)) for a well-typed index (output Bint[number of parts]):
+      Number n        -> the n-th part itself;
+      Variable v      -> the same parts stacked under v's name;
+      Slice(s; a:b:c) -> the parts at positions a, a+c, a+2c, ... < b, in that order, stacked under the slice's name (so
+                         position k of the result is position a + c*k of self, as Slice's own contract says);
+      anything else, or an index of another size -> NotImplementedError (a decline), never a value."""
+
+    props = ("C01", "C04")
+    file = "funsor/terms.py"
+    qualname = "Stack.eager_subs"
+    mutants = (("slice applied to the reversed parts", "                parts = self.parts[index.slice]", "                parts = self.parts[::-1][index.slice]"), ("selected part off by one", "                return self.parts[index.data]", "                return self.parts[index.data - 1]"))
+
+    def structures(self, tier):
+        for n in (1, 2, 3, 4):
+            for k in range(n):
+                yield "parts=%d,index=Number(%d)" % (n, k), (n, "num", k)
+            yield "parts=%d,index=Variable" % n, (n, "var", None)
+            for a in range(n):
+                for b in range(a, n + 1):
+                    for c in (1, 2, 3):
+                        yield "parts=%d,index=Slice(%d:%d:%d)" % (n, a, b, c), (n, "slice", (a, b, c))
+            yield "parts=%d,index=tensor" % n, (n, "other", None)
+            yield "parts=%d,index=Number of another size" % n, (n, "badsize", None)
+
+    def build(self, p, st):
+        n, kind, arg = st
+        parts = tuple(Part(k) for k in range(n))
+
+        class Self:
+            pass
+
+        s = Self()
+        s.name, s.parts = "s", parts
+        if kind == "num":
+            index = NumberT(arg, n)
+        elif kind == "var":
+            index = VarT("v", BintM(n))
+        elif kind == "slice":
+            index = SliceT("w", arg[0], arg[1], arg[2], n)
+        elif kind == "badsize":
+            index = NumberT(0, n + 1)
+        else:
+            index = T("tensor_index", ["z"])
+            index.output = BintM(n)
+        made = []
+
+        def Stack(name, ps):
+            made.append((name, ps))
+            return ("Stack", name, ps)
+
+        ns = dict(Bint=BintNS(), Number=NumberT, Variable=VarT, Slice=SliceT, Stack=Stack, isinstance=isinstance, len=len, tuple=tuple, NotImplementedError=NotImplementedError)
+        return Ctx(args=(s, (("s", index),)), namespace=ns, parts=parts, st=st)
+
+    def may_raise(self, ctx, etype):
+        return ctx.st[1] in ("other", "badsize") and etype == "NotImplementedError"
+
+    def allow_vacuous(self, st):
+        return st[1] in ("other", "badsize")
+
+    def ensures(self, ctx, result):
+        n, kind, arg = ctx.st
+        parts = ctx.parts
+        if kind == "num":
+            return [("number_selects_that_part", result is parts[arg])]
+        if kind == "var":
+            return [("variable_renames_the_stack", result == ("Stack", "v", parts))]
+        if kind == "slice":
+            a, b, c = arg
+            exp = tuple(parts[i] for i in range(a, b, c))
+            return [("slice_keeps_positions_start_plus_step_k", result == ("Stack", "w", exp))]
+        return [("unsupported_index_declines", False)]
+
+
+@register
+class StackEagerReduce(Contract):
+    """Stack.eager_reduce(op, reduced): reducing over the stacking name folds the parts with op, left to right (each part
+    first reduced over the other reduced names); otherwise every part is reduced over the reduced names and the results are
+    stacked under the same name, in the same order."""
+
+    props = ("C01",)
+    file = "funsor/terms.py"
+    qualname = "Stack.eager_reduce"
+    total = True
+    mutants = (("parts not reduced when the stacking name is kept", "        parts = tuple(x.reduce(op, reduced_vars) for x in parts)\n        return Stack(self.name, parts)", "        return Stack(self.name, parts)"),)
+
+    def structures(self, tier):
+        for n in (1, 2, 3):
+            for red in [("s",), ("a",), ("s", "a"), ("a", "b")]:
+                yield "parts=%d,reduced=%s" % (n, "".join(red)), (n, red)
+
+    def build(self, p, st):
+        n, red = st
+        parts = tuple(Part(k, ("a", "b")) for k in range(n))
+
+        class Self:
+            pass
+
+        s = Self()
+        s.name, s.parts = "s", parts
+        folds = []
+
+        def reduce_(op, seq):
+            seq = list(seq)
+            folds.append((op, seq))
+            return ("fold", op, tuple(seq))
+
+        ns = dict(reduce=reduce_, Stack=lambda name, ps: ("Stack", name, tuple(ps)), frozenset=frozenset, tuple=tuple)
+        return Ctx(args=(s, "OP", frozenset(red)), namespace=ns, parts=parts, st=st)
+
+    def ensures(self, ctx, result):
+        n, red = ctx.st
+        others = frozenset(red) - {"s"}
+
+        def reduced_ok(r, k):
+            if not others:
+                return r is ctx.parts[k]
+            return isinstance(r, Part) and r.reduced is not None and r.reduced[0] == "OP" and r.reduced[1] == others and r.reduced[2] is ctx.parts[k]
+
+        if "s" in red:
+            ok = isinstance(result, tuple) and result[0] == "fold" and result[1] == "OP" and len(result[2]) == n and all(reduced_ok(r, k) for k, r in enumerate(result[2]))
+            return [("stacking_name_folds_the_parts_in_order", bool(ok))]
+        ok = isinstance(result, tuple) and result[0] == "Stack" and result[1] == "s" and len(result[2]) == n and all(reduced_ok(r, k) for k, r in enumerate(result[2]))
+        return [("parts_reduced_and_restacked_in_order", bool(ok))]
